@@ -3,9 +3,11 @@
 const char *prop_id = "C09";
 
 typedef struct { int rowoff, wordoff, trailw, trailr; } plc;
-static plc PL[64]; static int nPL;
+static plc PL[80]; static int nPL;
 static void placements(void) {
   nPL = 0;
+  /* trailw = -1: the parent extends beyond the view only inside the view's last word */
+  PL[nPL++] = (plc){0, 0, -1, 0}; PL[nPL++] = (plc){1, 1, -1, 2};
   if (vx_tier) { for (int a = 0; a < 3; a++) for (int b = 0; b < 3; b++) for (int c = 0; c < 3; c++) for (int d = 0; d < 2; d++) PL[nPL++] = (plc){a == 2 ? 3 : a, b, c, d * 2}; }
   else { static const plc Q[] = {{0, 0, 1, 0}, {1, 1, 1, 2}, {3, 2, 0, 0}, {1, 1, 0, 2}, {0, 1, 2, 0}, {3, 0, 2, 2}, {0, 2, 1, 2}, {1, 0, 0, 0}, {0, 1, 0, 0}, {3, 1, 1, 0}, {1, 2, 2, 2}, {0, 0, 0, 2}, {3, 1, 2, 2}, {1, 0, 1, 0}, {0, 2, 0, 0}, {3, 0, 1, 2}}; for (int i = 0; i < 16; i++) PL[nPL++] = Q[i]; }
 }
